@@ -216,6 +216,19 @@ M = [
             self._send(response, addr)
 """, """        self._send(response, addr)
 """),
+ ('c11_ascii_nonhex_raises', 'C11', 'pymodbus/framer/ascii_framer.py',
+  """            except ValueError:
+                # not hex digits (or an odd number of them): a bad frame
+                return False
+""", """            except ZeroDivisionError:
+                return False
+"""),
+ ('c11_rtu_undecodable_frame_kept', 'C11', 'pymodbus/framer/rtu_framer.py',
+  """            if not error:
+                self.advanceFrame()
+            raise
+""", """            raise
+"""),
 ]
 
 
